@@ -16,8 +16,9 @@ def run_property(pid, prog, chk):
     except AnalysisError as e:
         pending = e
     by_sib = {}
-    for (sib, prefix, why) in SHARED.get(pid, ()):
-        by_sib.setdefault(sib, []).append((prefix, why))
+    for row in SHARED.get(pid, ()):
+        sib, prefix, why = row[:3]
+        by_sib.setdefault(sib, []).append((prefix, why) if len(row) == 3 else (prefix, why, row[3]))
     for sib in sorted(by_sib):
         smod = importlib.import_module("pvf.rules.%s" % sib.lower())
         sc = Check(sib, chk.tier, chk.seed, quiet=True)
@@ -26,8 +27,13 @@ def run_property(pid, prog, chk):
             smod.run(prog, sc)
         except AnalysisError as e:
             serr = e
-        for (prefix, why) in by_sib[sib]:
-            got = [o for o in sc.obligations if o["rule"].startswith(prefix)]
+        for ent in by_sib[sib]:
+            prefix, why = ent[:2]
+            got = [o for o in sc.obligations if o["key"].startswith(prefix)]
+            if not got and len(ent) > 2 and ent[2] == "zero-expected" and serr is None:
+                # a rule that records unguarded sites only: none found by the sibling's (completed) analysis
+                chk.ob("%s/%s" % (sib, prefix.split(":")[0]), ":".join(prefix.split(":")[1:]) or "all", True, "", "no unguarded site found [shared with %s: %s]" % (sib, why))
+                continue
             if not got:
                 if serr is not None:
                     raise AnalysisError("shared:%s:%s" % (sib, prefix), "sibling analysis stopped before the shared rule: %s %s" % (serr.anchor, serr.detail))
@@ -35,7 +41,7 @@ def run_property(pid, prog, chk):
             for o in got:
                 key = o["key"][len(o["rule"]) + 1:]
                 chk.ob("%s/%s" % (sib, o["rule"]), key, o["ok"], o["where"], "%s [shared with %s: %s]" % (o["detail"], sib, why))
-        chk.count("obligations shared with %s" % sib, sum(1 for o in sc.obligations if any(o["rule"].startswith(p) for p, _ in by_sib[sib])))
+        chk.count("obligations shared with %s" % sib, sum(1 for o in sc.obligations if any(o["key"].startswith(e[0]) for e in by_sib[sib])))
     if pending is not None:
         raise pending
     return mod
